@@ -387,7 +387,23 @@ def bytes_only(ck, u, names, tag):
 
 def run_config(ck, variant, tag):
     host_big = bool(variant and variant.get('big_endian'))
+    ilp32 = bool(variant and variant.get('ilp32'))
+    if ilp32:
+        # a 32-bit target (long and pointers 32 bits wide): the hosted units cannot be parsed with -m32 here (no 32-bit libc
+        # headers), the header alone can - it needs the compiler's own freestanding headers only
+        u = cast.load(UNIT, {k: v for k, v in variant.items() if k != 'ilp32'} | {'extra': ['-m32', '-ffreestanding']},
+                      source_text='#include <ufw/binary-format.h>\n')
+        saved = {k: bitdom.TYPE_INFO[k] for k in ('long', 'unsigned long')}
+        bitdom.TYPE_INFO['long'], bitdom.TYPE_INFO['unsigned long'] = (32, True, False), (32, False, False)
+        try:
+            return _run_config(ck, u, host_big, tag)
+        finally:
+            bitdom.TYPE_INFO.update(saved)
     u = cast.load(UNIT, variant)
+    return _run_config(ck, u, host_big, tag)
+
+
+def _run_config(ck, u, host_big, tag):
     ck.unit(UNIT + tag)
     names = [n for n in u.functions_in_file('binary-format.h') if n.startswith('bf_')]
     # helpers newer than the confirmed function table have no specification of their own: they are judged through the
@@ -424,3 +440,5 @@ def run(ck):
         run_config(ck, {'big_endian': True}, '@big')
         run_config(ck, {'no_builtin_swap': True}, '@noswap')
         run_config(ck, {'big_endian': True, 'no_builtin_swap': True}, '@big-noswap')
+        run_config(ck, {'ilp32': True}, '@ilp32')
+        run_config(ck, {'ilp32': True, 'no_builtin_swap': True}, '@ilp32-noswap')
